@@ -212,7 +212,12 @@ def check_partition(hist, call, before, after, rec):
     dup = [m for m, c in seen.items() if c > 1]
     rec.check(not missing, "no-loss", f"droplets (frame, index) {missing[:5]} appear in no track; {label}")
     rec.check(not dup, "no-duplicate", f"droplets (frame, index) {dup[:5]} appear more than once; {label}")
-    if frames_overlap_free(hist):
+    ts_all = [float(t) for t in hist["times"]]
+    if not all(b > a for a, b in zip(ts_all[:-1], ts_all[1:])):
+        # repeated or restarting time stamps: which tracks count as alive is keyed on the stamps, so only the
+        # partition itself (every droplet in exactly one track, unaltered) is demanded
+        rec.count("histories_with_repeated_or_restarting_time_stamps")
+    elif frames_overlap_free(hist):
         rec.hit("overlap-free-history")
         for members in indexed:
             fi = [m[0] for m in members if m is not None]
